@@ -1,5 +1,5 @@
 (* C07 — tainted nodes are reused before new capacity is bought.  Theorems only. *)
-From Esc Require Import Examples proofs.ScanTaint proofs.ScanState.
+From Esc Require Import Examples proofs.ScanTaint proofs.ScanState proofs.ScanRun proofs.ScanRunTheorems.
 
 (* for every scan outside dry mode (node names of the view distinct): the nodes whose untaint is attempted are
    visited newest-created first, and if the journal contains a cloud increase then, before it, EVERY tainted node of
@@ -38,3 +38,9 @@ Example c07_ex :
   got_names (calls_before_increase (r_calls (ex_scan ex_opts gstate0 24000))) = [202; 205; 206]
   /\ filter is_cloud_increase (r_calls (ex_scan ex_opts gstate0 24000)) = [CA (ASetDesired 103 10 false true)].
 Proof. vm_compute. split; reflexivity. Qed.
+
+(* over a whole RunOnce: the checker evaluated by the correspondence holds of every group journal the model produces
+   (group names and cloud group names pairwise distinct) *)
+Theorem c07_run_once : forall s, wf_groups s -> wf_snapshot s = true -> for_groups check_C07_group s (run_journals s) = true.
+Proof. exact run_passes_C07. Qed.
+Print Assumptions c07_run_once.
